@@ -7,7 +7,7 @@ discrete logarithms (checks/lq.py); the caller's hash is an uninterpreted record
   positive   for EVERY 32-byte master key (the integer s in [0, 2^256) is not reduced by unmarshal), every identity hash, every requested
              length (a symbolic 64-bit value, so 0 is included) and params = (P, [s]P):  sk = keygen(msk, id) is [s]Q_id, and decrypt(ct, sk, id)
              hands the hash exactly the record encrypt handed it: same output pointer and length, same 48+96+576 bytes (token-wise), so
-             the same key comes out
+             the same key comes out; the same again entering through the C interface (embedded_pairing_lqibe_*)
   negative   (generic-group sense, T9; for s not congruent to 0 modulo r) the record differs in some component when the key belongs to
              another identity, to another master scalar modulo r, or the ciphertext is altered:  'all components equal' is unsatisfiable
 """
@@ -75,16 +75,16 @@ def ob_setup():
     return stats(W, n, [f], "params.sp = [s]params.p, s = the scalar PowersOfX::random returned, p = G2::random_generator")
 
 
-def scenario(W, with_second_id=False, second_msk=False):
-    """objects shared by the positive and negative obligations"""
+def scenario(W):
+    """objects shared by the positive and negative obligations: master key bytes, output buffer of symbolic size, symbolic requested length"""
     mb, S, s_int = W.scalar_bytes("")
     sym = Ptr(Obj("symmetric", z3.BitVec("buflen", 64), "arg", 1), 0)
     length = z3.BitVec("len", 64)
     return mb, S, s_int, sym, length
 
 
-def ob_positive():
-    W = World()
+def ob_positive(c_api=False):
+    W = World(c_api=c_api)
     mb, S, s_int, sym, length = scenario(W)
     hobj = W.hash_obj("a")
     fns = [W.fn(n) for n in ("compute_id_from_hash", "keygen", "encrypt", "decrypt")]
@@ -211,6 +211,7 @@ def register(chk):
     chk.add("layout:SymmetricKeyHashBuffer", ob_layout)
     chk.add("setup", ob_setup)
     chk.add("positive:roundtrip", ob_positive)
+    chk.add("positive:roundtrip:c-interface", ob_positive, True)
     for k in NEG:
         chk.add("negative:" + k, ob_negative, k)
 
